@@ -4,7 +4,10 @@ use super::{ReadConsistency, Walrus};
 use crate::wal::block::{Block, Entry, Metadata};
 use crate::wal::config::{MAX_BATCH_ENTRIES, PREFIX_META_SIZE, checksum64, debug_print};
 use std::io;
+#[cfg(not(walrus_verif))]
 use std::sync::{Arc, RwLock};
+#[cfg(walrus_verif)]
+use crate::wal::verif::sync::{Arc, RwLock};
 
 use rkyv::{AlignedVec, Deserialize};
 use tracing::info;
